@@ -9,8 +9,8 @@ for d in seeded/*/; do
   PAIRS="$PAIRS$n $p\n"
 done
 # seeds that manifest through another property's machinery as well
-PAIRS="${PAIRS}C01-2 C09\nC04-2 C09\nC04-2 C10\nC10-2 C09\nC12-1 C10\n"
-printf "$PAIRS" | grep -v "^C01-2 C01$\|^C04-2 C04$" | xargs -P 3 -L 1 sh -c 'tools/seed_run.sh $0 $1 '"$TIER"' 2>&1 | tail -1' > /tmp/seed_matrix.log 2>&1
+PAIRS="${PAIRS}C01-2 C09\nC04-2 C09\nC04-2 C10\nC10-2 C09\nC12-1 C10\nC09-4 C11\nC12-4 C11\nC12-3 C17\n"
+printf "$PAIRS" | grep -v "^C01-2 C01$\|^C09-4 C09$" | xargs -P 3 -L 1 sh -c 'tools/seed_run.sh $0 $1 '"$TIER"' 2>&1 | tail -1' > /tmp/seed_matrix.log 2>&1
 /venv/bin/python - <<'PY'
 import json,re,os,subprocess
 head=subprocess.check_output(['git','-C','/repo','rev-parse','--short','HEAD'],text=True).strip()
